@@ -80,7 +80,7 @@ class Path:
     def atom(self, pattern: str) -> Optional[Any]:
         """Value of the unique atom whose key matches the regex (None = undecided on this path)."""
         rx = re.compile(pattern)
-        vals = {k: v for k, v in self.atoms.items() if rx.search(k)}
+        vals = {k: v for k, v in self.atoms.items() if rx.search(k) and ('forced:' + k) not in self.notes}
         if not vals:
             return None
         distinct = set(vals.values())
@@ -115,6 +115,7 @@ class Config:
     versioned: set = field(default_factory=set)        # local roots whose derived atoms are versioned on mutation
     pure: set = field(default_factory=set)             # callee suffixes that do not mutate their arguments
     mutators: dict = field(default_factory=dict)       # regex on call key -> (atom key template, value)
+    bump: dict = field(default_factory=dict)           # callee suffix -> roots mutated through aliases (e.g. cause.patch is patch)
     assume: dict = field(default_factory=dict)         # atom key -> value, assumed at entry
     depth: int = 2
     loop_once: bool = True
@@ -149,7 +150,10 @@ class Interp:
             return const(node.value)
         if isinstance(node, ast.Name):
             if node.id in p.env:
-                return p.env[node.id]
+                v = p.env[node.id]
+                if node.id in self.cfg.versioned and p.ver.get(node.id) and v.kind in ('sym', 'coll', 'dict'):
+                    return sym(f'{v.key}#{p.ver[node.id]}')
+                return v
             if node.id in ('True', 'False', 'None'):
                 return const({'True': True, 'False': False, 'None': None}[node.id])
             r = self.gkey(node)
@@ -199,7 +203,7 @@ class Interp:
         if isinstance(node, ast.BinOp):
             l, r = self.ev(node.left, p), self.ev(node.right, p)
             opn = type(node.op).__name__
-            if isinstance(node.op, ast.Add) and l.kind == 'coll' and r.kind == 'coll':
+            if isinstance(node.op, ast.Add) and (l.kind == 'coll' or r.kind == 'coll') and l.kind != 'const' and r.kind != 'const':
                 return V('coll', f'({l.key} + {r.key})', ('concat', (l, r)))
             if isinstance(node.op, ast.BitOr) and l.kind == 'dict' and r.kind == 'dict':
                 items = dict(l.data[0]); items.update(r.data[0])
@@ -293,7 +297,7 @@ class Interp:
         if isinstance(fn, ast.Attribute) and dotted(fn) and dotted(fn).split('.')[0] in self._locals() | set(p.env):
             recv = self.ev(fn.value, p)
             root = dotted(fn).split('.')[0]
-            head = f'{self._ver_key(recv.key, root, p)}.{fn.attr}'
+            head = f'{recv.key}.{fn.attr}'
         else:
             r = self.gkey(fn)
             head = r or self.ev(fn, p).key
@@ -375,6 +379,10 @@ class Interp:
                 d = dotted(a)
                 if d:
                     roots.add(d.split('.')[0])
+            for suffix, extra in self.cfg.bump.items():
+                if any(n == suffix or n.endswith('.' + suffix) for n in names):
+                    roots |= set(extra)
+                    pure = False
             for r in roots & self.cfg.versioned:
                 if pure and not forced:
                     continue
@@ -382,6 +390,8 @@ class Interp:
             if forced:
                 tmpl, val = forced
                 k2 = tmpl.format(**{r: self.vkey(r, p) for r in self.cfg.versioned})
+                if k2 not in p.atoms:
+                    p.notes.append('forced:' + k2)     # a fact established by a mutator, not a branch decision
                 p.atoms[k2] = val
                 p.order.append(k2)
 
@@ -522,7 +532,7 @@ class Interp:
                             rec(q, i + 1)
                 rec(p, 0)
                 return [(q, b != neg) for q, b in out]
-            res = self.atom(f'in({l.key}, {self._ver_key(r.key, (dotted(rnode) or "?").split(".")[0], p)})', p)
+            res = self.atom(f'in({l.key}, {r.key})', p)
             return [(q, b != neg) for q, b in res]
         if isinstance(op, (ast.Lt, ast.LtE, ast.Gt, ast.GtE)):
             if l.kind == 'const' and r.kind == 'const':
